@@ -4,8 +4,9 @@
 (* every record carries what the application can observe after the call:          *)
 (*   live   instances held,                                                        *)
 (*   val    abstract value (canonical form) of the member of every instance,       *)
-(*   ref    identity of the nested object: own number = private object, number of  *)
-(*          a lower instance = the very same python object, 0 = the class default, *)
+(*   ref    identity of the mutable objects the member value consists of: own      *)
+(*          number = all private, number of a lower instance = at least one python *)
+(*          object in common with it, 0 = in common with the class default,        *)
 (*   fresh  value of the member of a cls() constructed after the call.             *)
 (* The recorded state is bound to the variables of Defaults.tla and each step is   *)
 (* judged with the operators of Defaults.tla; a failing clause is named in a       *)
@@ -21,21 +22,19 @@ Rng(s) == {s[k] : k \in DOMAIN s}
 
 Clause(name, cond) == IF cond THEN TRUE ELSE PrintT(<<"REJECT", tid, l + 1, name>>)
 
+\* Binding: the values are bound through private cells (an instance may share only a PART of its value
+\* with another one, so values of sharers may differ); the recorded identities are judged by NoSharingIn.
 LiveOf(rec) == Rng(rec.live)
-RefOf(rec) == [i \in Inst |-> rec.ref[i]]
-HeapOf(rec) == [c \in Cells |->
-                  IF c = Dflt THEN rec.fresh
-                  ELSE IF \E j \in LiveOf(rec) : rec.ref[j] = c
-                         THEN rec.val[CHOOSE j \in LiveOf(rec) : rec.ref[j] = c]
-                         ELSE D0]
-\* the recorded identities and values must be consistent (same object => same value)
-Consistent(rec) == \A i \in LiveOf(rec) : HeapOf(rec)[rec.ref[i]] = rec.val[i]
+SharesOf(rec) == [i \in Inst |-> rec.ref[i]]
+OwnCells == [i \in Inst |-> i]
+HeapOf(rec) == [c \in Cells |-> IF c = Dflt THEN rec.fresh
+                                ELSE IF c \in LiveOf(rec) THEN rec.val[c] ELSE D0]
 
 TraceInit == /\ tid \in 1..Len(Traces)
              /\ l = 1
              /\ hist = <<>>
              /\ LET rec == Traces[tid][1] IN
-                  /\ live = LiveOf(rec) /\ ref = RefOf(rec) /\ heap = HeapOf(rec)
+                  /\ live = LiveOf(rec) /\ ref = OwnCells /\ heap = HeapOf(rec)
                   /\ IF live = {} /\ DefaultStable THEN TRUE ELSE PrintT(<<"REJECT", tid, 1, "default_stable">>)
 
 StepOK(rec) ==
@@ -50,13 +49,12 @@ StepOK(rec) ==
 
 TraceNext == /\ l < Len(Traces[tid])
              /\ LET rec == Traces[tid][l + 1] IN
-                  /\ live' = LiveOf(rec) /\ ref' = RefOf(rec) /\ heap' = HeapOf(rec)
-                  /\ Clause("binding", Consistent(rec))
+                  /\ live' = LiveOf(rec) /\ ref' = OwnCells /\ heap' = HeapOf(rec)
                   /\ Clause("step", StepOK(rec))
                   /\ Clause("isolated", Others(rec.i))
                   /\ Clause("default_untouched", heap'[Dflt] = heap[Dflt])
                   /\ Clause("default_stable", DefaultStable')
-                  /\ Clause("no_sharing", NoSharing')
+                  /\ Clause("no_sharing", NoSharingIn(LiveOf(rec), SharesOf(rec)))
              /\ l' = l + 1 /\ tid' = tid /\ hist' = hist
 
 TraceSpec == TraceInit /\ [][TraceNext]_<<vars, tid, l>>
